@@ -924,6 +924,23 @@ func (k *vCtl) reqWriteControl() {
 						return k.sc.ConfigurePulseLengths(SizeObject{Nsamp: k.ns, Npre: np}, &okay)
 					})
 				}
+			} else if !k.dead && k.wActive && k.stKnown && !k.stateFull && k.gate() == "" && vChance(r, 0.3) {
+				// or: a short run with a labelled resume, ended at once, whose experiment-state file is then read
+				var okay bool
+				k.do("WriteControl(\"PAUSE\")", "ok", func() error { return k.sc.WriteControl(&WriteControlConfig{Request: "PAUSE"}, &okay) })
+				if e, ret := k.do("WriteControl(\"UNPAUSE mark\")", "ok", func() error { return k.sc.WriteControl(&WriteControlConfig{Request: "UNPAUSE mark"}, &okay) }); ret && e == nil {
+					k.stLabels = append(k.stLabels, "mark")
+				} else {
+					k.stKnown = false
+				}
+				if e, ret := k.do("WriteControl(\"STOP\")", "ok", func() error { return k.sc.WriteControl(&WriteControlConfig{Request: "STOP"}, &okay) }); ret && e == nil && !k.dead {
+					if k.stKnown {
+						k.checkStateFile()
+					}
+					k.wActive, k.wPaused = false, false
+					k.comment = ""
+					k.c.Cov("short_runs_with_a_labelled_resume", 1)
+				}
 			}
 		}()
 		ws := k.sc.ActiveSource.ComputeWritingState()
